@@ -23,7 +23,7 @@ CLAIMS = {
     "C09": ("macx+thrx", "history enumeration over 84 Result functions (both spellings, three flavours, incl. bodies leaving through ?/return, ttl, and invalidate_on refreshes that fail) with every Ok/Err outcome script: Err never stored / served / evicting, first Ok stored and reused; plus every schedule (preemption bound 2/3) and every outcome of two or three concurrent callers of one Result function: a stored Ok survives any later Err", "§7 C09"),
     "C10": ("macx+thrx", "history enumeration over 36 cache_if functions (incl. with ttl, with invalidate_on, with both and a Result) with every accept/reject script: consulted once per execution with that call's key and result, verdict decides storage; plus every schedule (preemption bound 2/3) and every verdict of two or three concurrent callers: one consultation per execution, cached iff some execution was accepted", "§7 C10"),
     "C11": ("macx+thrx", "history enumeration over 36 invalidate_on functions (limits none/1/2, ttl, max_memory) with versioned bodies and every verdict script: stale entries never served, refreshed value replaces the stale one and is served next; plus every schedule (preemption bound 2/3) and every verdict of two or three concurrent callers: the value served is exactly the value shown to invalidate_on in that call", "§7 C11"),
-    "C12": ("macx+thrx", "history enumeration over groups covering all 128 metadata assignments (tags/events/dependencies subsets of {x,y}, sync and async): every by_tag/by_event/by_dependency/invalidate_cache request incl. undeclared names; count and emptied caches compared with the metadata; plus every schedule (preemption bound 2/3) of two or three group invalidations racing with each other and with calls: counts stay exact", "§7 C12"),
+    "C12": ("macx+thrx", "history enumeration over groups covering all 128 metadata assignments (tags/events/dependencies subsets of {x,y}, sync and async): every by_tag/by_event/by_dependency/invalidate_cache request incl. undeclared names; count and emptied caches compared with the metadata; plus every schedule (preemption bound 2/3) of two or three group invalidations racing with each other and with calls: counts stay exact and whatever a matching cache held before the threads started is gone; cold start: two caches sharing their metadata registering concurrently (one child process per schedule), then a request for every declared name", "§7 C12"),
     "C13": ("macx+thrx", "history enumeration with invalidate_with / invalidate_all_with for key subsets: exactly the matching keys go, bystanders untouched, and the C04-type monitors keep running after the invalidation; plus every schedule (preemption bound 2/3) of a lookup or a store overlapping with an invalidation of the same key, followed by a sequential continuation that pins the least-recently-used order exactly", "§7 C13, §7 C18"),
     "C14": ("thrx+macx+shapex", "every interleaving (operation-boundary granularity, no effective preemption bound) of 2-4 real OS threads calling thread-scope functions of every policy / limit, compared with each thread's program run alone on a fresh thread; "
                     "any dependence of a schedule on earlier executions (fresh threads each time) is reported as state outliving its thread; plus global/async drivers: what one thread stored every other thread is served; plus every call history of depth 5-6 with every assignment of its calls to 2-3 long-lived OS threads, each thread's calls compared with the same calls on a thread running alone; plus every signature shape with every argument tuple (incl. long arguments) stored by one OS thread and requested by a second: served without running the body", "§7 C14"),
